@@ -423,13 +423,16 @@ class Linear(OpDef):
         return out
 
     def illegal_configs(self, tier):
-        return [{"n": 2, "in": 3, "out": 2, "bias": True, "via": "M", "xin": 2}]
+        # wrong in_features; a bias that cannot be broadcast against the output (PyTorch's linear broadcasts its bias, so a
+        # (1,) or (n, out) bias is legal there and not listed here)
+        return [{"n": 2, "in": 3, "out": 2, "bias": True, "via": "M", "xin": 2},
+                {"n": 2, "in": 3, "out": 2, "bias": True, "via": "F", "bshape": [3]}]
 
     def inputs(self, args):
         lead = tuple(args.get("lead", ()))      # extra leading batch dimensions (functional API only)
         ins = [Inp("x", lead + (args["n"], args.get("xin", args["in"]))), Inp("w", (args["out"], args["in"]), param=True)]
         if args["bias"]:
-            ins.append(Inp("b", (args["out"],), param=True))
+            ins.append(Inp("b", tuple(args.get("bshape", (args["out"],))), param=True))
         return ins
 
     def forward(self, args, ts, extra):
@@ -584,12 +587,16 @@ class Conv1d(OpDef):
 
     def illegal_configs(self, tier):
         return [{"N": 1, "Ci": 1, "Co": 1, "L": 2, "k": 3, "s": 1, "p": 0, "d": 1, "bias": False, "via": "F"},
-                {"N": 1, "Ci": 1, "Co": 1, "L": 3, "k": 2, "s": 1, "p": 0, "d": 3, "bias": False, "via": "F"}]
+                {"N": 1, "Ci": 1, "Co": 1, "L": 3, "k": 2, "s": 1, "p": 0, "d": 3, "bias": False, "via": "F"},
+                # a bias that is not one value per output channel, input channels that do not match the weight
+                {"N": 1, "Ci": 1, "Co": 2, "L": 3, "k": 2, "s": 1, "p": 0, "d": 1, "bias": True, "via": "F", "bshape": [1]},
+                {"N": 1, "Ci": 1, "Co": 2, "L": 3, "k": 2, "s": 1, "p": 0, "d": 1, "bias": True, "via": "F", "bshape": [3]},
+                {"N": 1, "Ci": 2, "Co": 1, "L": 3, "k": 2, "s": 1, "p": 0, "d": 1, "bias": False, "via": "F", "xci": 1}]
 
     def inputs(self, args):
-        ins = [Inp("x", (args["N"], args["Ci"], args["L"])), Inp("w", (args["Co"], args["Ci"], args["k"]), param=True)]
+        ins = [Inp("x", (args["N"], args.get("xci", args["Ci"]), args["L"])), Inp("w", (args["Co"], args["Ci"], args["k"]), param=True)]
         if args["bias"]:
-            ins.append(Inp("b", (args["Co"],), param=True))
+            ins.append(Inp("b", tuple(args.get("bshape", (args["Co"],))), param=True))
         return ins
 
     def forward(self, args, ts, extra):
@@ -661,14 +668,17 @@ class Conv2d(OpDef):
 
     def illegal_configs(self, tier):
         return [{"H": 2, "W": 2, "k": [3, 1], "s": 1, "p": 0, "d": 1, "N": 1, "Ci": 1, "Co": 1, "bias": False, "via": "F"},
-                {"H": 3, "W": 2, "k": [2, 2], "s": 1, "p": 0, "d": [1, 2], "N": 1, "Ci": 1, "Co": 1, "bias": False, "via": "F"}]
+                {"H": 3, "W": 2, "k": [2, 2], "s": 1, "p": 0, "d": [1, 2], "N": 1, "Ci": 1, "Co": 1, "bias": False, "via": "F"},
+                {"H": 2, "W": 2, "k": [2, 2], "s": 1, "p": 0, "d": 1, "N": 1, "Ci": 1, "Co": 2, "bias": True, "via": "F", "bshape": [1]},
+                {"H": 2, "W": 2, "k": [2, 2], "s": 1, "p": 0, "d": 1, "N": 1, "Ci": 1, "Co": 2, "bias": True, "via": "F", "bshape": [2, 1]},
+                {"H": 2, "W": 2, "k": [2, 2], "s": 1, "p": 0, "d": 1, "N": 1, "Ci": 2, "Co": 1, "bias": False, "via": "F", "xci": 1}]
 
     def inputs(self, args):
         k = pair(arg(args["k"]))
-        ins = [Inp("x", (args["N"], args["Ci"], args["H"], args["W"])),
+        ins = [Inp("x", (args["N"], args.get("xci", args["Ci"]), args["H"], args["W"])),
                Inp("w", (args["Co"], args["Ci"], k[0], k[1]), param=True)]
         if args["bias"]:
-            ins.append(Inp("b", (args["Co"],), param=True))
+            ins.append(Inp("b", tuple(args.get("bshape", (args["Co"],))), param=True))
         return ins
 
     def forward(self, args, ts, extra):
